@@ -148,20 +148,15 @@ fn main() {
     watchdog::arm(&out_path, Duration::from_secs(180));
     let scen = read_tagged(&vectors, "HS");
     let t_ticks = scen.first().map(|v| v["T"].as_u64().unwrap()).unwrap_or(5);
-    let port = { let l = std::net::TcpListener::bind("127.0.0.1:0").unwrap(); l.local_addr().unwrap().port() };
     let rt = tokio::runtime::Builder::new_multi_thread().worker_threads(4).enable_all().build().unwrap();
-    let settings = Settings::builder()
-        .listen_address(format!("127.0.0.1:{}", port)).unwrap()
-        .listen_protocols(ListenProtocolSettings { http1: Some(Http1Settings::builder().build()), http2: Some(Http2Settings::builder().build()), quic: None })
-        .tls_handshake_timeout(Duration::from_millis(t_ticks * TICK_MS))
-        .build().expect("settings");
-    let core: &'static Core = Box::leak(Box::new(Core::new(settings, None, hosts_settings(), Shutdown::new()).expect("core")));
-    rt.spawn(async move { let _ = core.listen().await; });
-    // wait for the listener
-    for _ in 0..200 {
-        if TcpStream::connect(("127.0.0.1", port)).is_ok() { break; }
-        std::thread::sleep(Duration::from_millis(20));
-    }
+    let (_core, port, _task) = start_listening_core(&rt, move |port| {
+        let settings = Settings::builder()
+            .listen_address(format!("127.0.0.1:{}", port)).unwrap()
+            .listen_protocols(ListenProtocolSettings { http1: Some(Http1Settings::builder().build()), http2: Some(Http2Settings::builder().build()), quic: None })
+            .tls_handshake_timeout(Duration::from_millis(t_ticks * TICK_MS))
+            .build().expect("settings");
+        Core::new(settings, None, hosts_settings(), Shutdown::new()).expect("core")
+    });
     // scenarios run concurrently (they are independent connections), each on its own thread
     let mut handles = vec![];
     for v in scen.iter().cloned() {
